@@ -1,10 +1,21 @@
 import TinsModel.Reassembly.Spec
+import TinsModel.Reassembly.WireUpper
+import TinsModel.Reassembly.Policy
 import Driver.Util
 /- line-protocol driver for IPv4 reassembly (C08): model mode and spec (oracle) mode.
+   The oracle is three references side by side, each fed the implementation's own output: (1) `specStep0`, the
+   datagram-aware reference of Reassembly/Spec.lean, decides the cases inside the property's hypothesis (`unspecified`
+   outside); (2) history-level safety clauses (`safetyPkt`: REASSEMBLED only from an exact cover of arrived fragments of
+   that key, shape of the corrupt path, stream count from the implementation's own reports) and (3) the policy reference
+   of Reassembly/Policy.lean (`polProcess`: expected line of every call of every history).
    ops:  case | dgram <tag> <id> <src> <dst> <proto> <tos> <df> <nopt> <hex> <lens,…> | frag <tag> <off> <len> <mf> <ttl> <eth>
          | whole <tag> <ttl> <eth> | nonip | remove <id> <src> <dst> | clear -/
 namespace Driver.C08
 open Tins Tins.Reasm Driver
+
+/-- the upper-layer parser the driver runs the model and the reference with: libtins' own `pdu_from_flag`, as modelled
+    by the wire families (TinsModel/Reassembly/WireUpper.lean; Props/C08Wire.lean) -/
+def upper : UpperParse := E2E.wireUpper
 
 def kindName : Inner → String
   | .none => "NONE"
@@ -54,9 +65,11 @@ def fragOp (tbl : List (String × DG)) (ws : List String) : Option (DG × Nat ×
     let off ← off.toNat?; let len ← len.toNat?; let ttl ← ttl.toNat?
     if off % 8 != 0 || off > 65528 || len > 65535 then none else
     let p := mkFragPkt d off len (mf == "1") ttl
+    -- the fragment itself must fit the 16-bit total length of its own header
+    if hdrSize p.hdr + (slice d.payload off len).length > 65535 then none else
     if mf == "1" || off != 0 || p.inner.isNone then some (d, off, len, mf == "1", ttl, some p) else
     -- offset 0 without more-fragments: not a fragment, the parser decodes the upper layer
-    match upperParseConcrete d.hdr.proto p.inner.bytes with
+    match upper d.hdr.proto p.inner.bytes with
     | some inner => some (d, off, len, false, ttl, some { p with inner := inner })
     | none => some (d, off, len, false, ttl, none)
   | _ => none
@@ -67,8 +80,9 @@ def wholeOp (tbl : List (String × DG)) (ws : List String) : Option (Option Pkt)
   | [tag, ttl, _eth] => do
     let d ← findTag tbl tag
     let ttl ← ttl.toNat?
+    if hdrSize d.hdr + d.payload.length > 65535 then none else
     if d.payload.isEmpty then some (some { hasIP := true, hdr := { d.hdr with ttl := ttl }, inner := .none }) else
-    match upperParseConcrete d.hdr.proto d.payload with
+    match upper d.hdr.proto d.payload with
     | none => some none
     | some inner => some (some { hasIP := true, hdr := { d.hdr with ttl := ttl }, inner := inner })
   | _ => none
@@ -81,7 +95,7 @@ structure MState where
 
 def step (st : MState) (line : String) : MState × String :=
   let doPkt (p : Pkt) : MState × String :=
-    let (r', p', out) := process upperParseConcrete st.r p
+    let (r', p', out) := process upper st.r p
     ({ st with r := r' }, showRes p out p' r'.length)
   match words line with
   | ["case"] => ({}, "case")
@@ -146,7 +160,123 @@ def judge (st : OState) (before : Pkt) (o : Obs) (impl : String) : String :=
     if kv iw "streams" == some (toString o.streams) then "ok"
     else s!"violates streams{ctx} expected: streams={o.streams}"
 
-def specStep (st : OState) (line : String) : OState × String :=
+
+/-! ### safety oracle for ARBITRARY histories (the clauses of `never_from_incomplete_all`, `fragmented_cases`,
+    `throws_only_parser_exception`, `reachable_table` decided on the implementation's own output) -/
+
+/-- a fragment packet that arrived in this case -/
+structure LogFrag where
+  key : Key
+  off : Nat
+  payload : Bytes
+  mf : Bool
+  hdr : Hdr
+
+structure SState where
+  /-- the datagram table as the harness keeps it (a tag is replaced by a later `dgram` with the same tag only) -/
+  tbl : List (String × DG) := []
+  log : List LogFrag := []
+  /-- the policy reference for arbitrary sessions (TinsModel/Reassembly/Policy.lean; `model_refines_policy`) -/
+  pol : PState := []
+  /-- keys the implementation has an open stream for, according to its own reports -/
+  live : List Key := []
+
+def fnvFrom (h : UInt64) (bs : List UInt8) : UInt64 := bs.foldl (fun h b => (h ^^^ b.toUInt64) * 1099511628211) h
+
+def hdrDump (h : Hdr) : String := s!"{h.id}.{h.src}.{h.dst}.{h.proto}.{h.tos}.{h.ttl}.{h.flags}.{h.off}.{4 * h.nopt}"
+
+/-- chains of arrived fragments of one key, each starting where the previous one ends:
+    states = (end offset, FNV state of the concatenation, last fragment had more-fragments clear) -/
+def chase (cands : List LogFrag) : Nat → List (Nat × UInt64 × Bool) → List (Nat × UInt64 × Bool) → List (Nat × UInt64 × Bool)
+  | 0, _, acc => acc
+  | fuel + 1, frontier, acc =>
+    let next := (frontier.flatMap (fun (e, h, _) =>
+      (cands.filter (fun c => c.off == e && !c.payload.isEmpty)).map
+        (fun c => (e + c.payload.length, fnvFrom h c.payload, !c.mf)))).eraseDups
+    if next.isEmpty then acc else chase cands fuel next (acc ++ next)
+
+/-- is there a set of arrived fragments of key `k` that covers `[0, len)` exactly, starts with a fragment whose header
+    (offset and more-fragments cleared) is `hdrStr`, ends with a fragment without more-fragments, fits an IPv4
+    datagram, and whose concatenation has FNV `want` (`none` = any content) -/
+def exactCoverExists (log : List LogFrag) (k : Key) (hdrStr : Option String) (len : Nat) (want : Option UInt64) : Bool :=
+  let cands := log.filter (fun c => c.key == k)
+  (cands.filter (fun c => c.off == 0)).any (fun f0 =>
+    let hres : Hdr := { f0.hdr with off := 0, flags := clearMF f0.hdr.flags }
+    (match hdrStr with | some s => hdrDump hres == s | none => true) && hdrSize hres + len ≤ 65535 &&
+    (let start := (f0.payload.length, fnvFrom 14695981039346656037 f0.payload, !f0.mf)
+     (start :: chase cands (cands.length + 1) [start] []).any (fun (e, h, lastClear) =>
+        e == len && lastClear && (match want with | some w => h == w | none => true))))
+
+def pktField (iw : List String) (i : Nat) : String := (((kv iw "pkt").getD "").splitOn "/").getD i ""
+
+/-- the safety clauses on one `process` call: `pkt` = the packet handed in, `impl` = what the implementation reports -/
+def safetyPkt (ss : SState) (pkt : Pkt) (impl : String) : SState × Option String :=
+  let iw := words impl
+  let st := (kv iw "st").getD "?"
+  let same := (kv iw "same").getD "?"
+  let isF := pkt.hasIP && !pkt.inner.isNone && isFragmented pkt.hdr
+  let k := makeKey pkt.hdr
+  let log' := if isF then ⟨k, extractOffset pkt.hdr, pkt.inner.bytes, pkt.hdr.flags % 2 != 0, pkt.hdr⟩ :: ss.log else ss.log
+  let del (l : List Key) := l.filter (· != k)
+  let (live', verdict) : List Key × Option String :=
+    if st == "N" then
+      (ss.live, if isF then some "not-fragmented-on-a-fragment" else if same != "1" then some "untouched" else none)
+    else if !isF then (ss.live, some s!"fragment-status-on-a-non-fragment st={st}")
+    else if st == "F" then
+      if same == "1" then (k :: del ss.live, none)
+      else
+        -- the `corrupt` path: first header of an arrived offset-0 fragment of this key, no payload, stream erased
+        let okShape := pktField iw 1 == "NONE" && pktField iw 2 == "0" &&
+          (log'.any (fun c => c.key == k && c.off == 0 && hdrDump c.hdr == pktField iw 0))
+        (del ss.live, if okShape then none else some "corrupt-path-shape")
+    else if st == "R" then
+      let len := (pktField iw 2).toNat?.getD 0
+      let want := ((pktField iw 3).toNat?).map (fun n => UInt64.ofNat n)
+      let expKind := if (Wire.Tags.classOfIpProto pkt.hdr.proto).isSome then none else some "RAW"
+      let v :=
+        if same != "0" then some "reassembled-untouched"
+        else if !exactCoverExists log' k (some (pktField iw 0)) len want then
+          some "reassembled-without-exact-cover"
+        else match expKind with
+          | some kd => if pktField iw 1 == kd then none else some "reassembled-kind"
+          | none => none
+      (del ss.live, v)
+    else if st == "throw:malformed_packet" then
+      let v :=
+        if same != "1" then some "throw-untouched"
+        else if (Wire.Tags.classOfIpProto pkt.hdr.proto).isNone then some "throw-without-parser"
+        else none
+      (del ss.live, v)
+    else (del ss.live, some s!"status-or-exception {st}")
+  let (pol', pp, pout) := polProcess upper ss.pol pkt
+  let ss' : SState := { ss with log := log', live := live', pol := pol' }
+  match verdict with
+  | some v => (ss', some v)
+  | none =>
+    if kv iw "streams" != some (toString live'.length) then (ss', some s!"streams-live expected: streams={live'.length}")
+    else if unmodelledProto pkt.hdr.proto then (ss', none)
+    else
+      -- the policy reference decides status, packet and stream count of every call
+      let exp := showRes pkt pout pp pol'.length
+      if impl == exp then (ss', none) else
+      let ew := words exp
+      let hd (s : Option String) := (s.map (fun x => (x.splitOn "/").headD "")).getD "?"
+      let clause :=
+        if kv iw "st" != kv ew "st" then "status"
+        else if hd (kv iw "pkt") != hd (kv ew "pkt") then "header"
+        else if kv iw "pkt" != kv ew "pkt" then "payload"
+        else if kv iw "same" != kv ew "same" then "untouched"
+        else if kv iw "streams" != kv ew "streams" then "streams"
+        else "format"
+      (ss', some s!"policy-{clause} expected: {exp}")
+
+def safetyTable (ss : SState) (live' : List Key) (pol' : PState) (impl : String) : SState × Option String :=
+  let ss' := { ss with live := live', pol := pol' }
+  if kv (words impl) "streams" != some (toString live'.length) then (ss', some s!"streams-live expected: streams={live'.length}")
+  else if live'.length != pol'.length then (ss', some s!"policy-streams expected: streams={pol'.length}")
+  else (ss', none)
+
+def specStep0 (st : OState) (line : String) : OState × String :=
   match line.splitOn " ||| " with
   | [op, impl0] =>
     let impl := impl0.trimAscii.toString
@@ -169,7 +299,7 @@ def specStep (st : OState) (line : String) : OState × String :=
       match fragOp st.tbl ws, ws with
       | some (d, off, len, mf, ttl, some pkt), tag :: _ =>
         if decide d.wf && d.pieces.contains (off, len) && mf == decide (off + len < d.payload.length) then
-          let (σ', o) := refStep upperParseConcrete st.σ (.frag d (off, len) ttl)
+          let (σ', o) := refStep upper st.σ (.frag d (off, len) ttl)
           let done := match o.res with
             | some (.reassembled, _) => true
             | some (.throwMalformed, _) => true
@@ -182,29 +312,69 @@ def specStep (st : OState) (line : String) : OState × String :=
       match wholeOp st.tbl ws with
       | some (some pkt) =>
         if notFrag pkt then
-          let (σ', o) := refStep upperParseConcrete st.σ (.other pkt)
+          let (σ', o) := refStep upper st.σ (.other pkt)
           ({ st with σ := σ' }, judge st pkt o impl)
         else ({ st with unspecified := true }, "unspecified")
       | some none => (st, "unspecified")
       | none => ({ st with unspecified := true }, "unspecified")
     | ["nonip"] =>
       if st.unspecified then (st, "unspecified") else
-      let (σ', o) := refStep upperParseConcrete st.σ (.other nonipPkt)
+      let (σ', o) := refStep upper st.σ (.other nonipPkt)
       ({ st with σ := σ' }, judge st nonipPkt o impl)
     | ["clear"] =>
       if st.unspecified then (st, "unspecified") else
-      let (σ', o) := refStep upperParseConcrete st.σ .clear
+      let (σ', o) := refStep upper st.σ .clear
       ({ st with σ := σ' }, judge st nonipPkt o impl)
     | ["remove", id, src, dst] =>
       if st.unspecified then (st, "unspecified") else
       match id.toNat?, src.toNat?, dst.toNat? with
       | some id, some src, some dst =>
-        let (σ', o) := refStep upperParseConcrete st.σ (.remove id src dst)
+        let (σ', o) := refStep upper st.σ (.remove id src dst)
         ({ st with σ := σ' }, judge st nonipPkt o impl)
       | _, _, _ => ({ st with unspecified := true }, "unspecified")
     | _ => ({ st with unspecified := true }, "unspecified")
   | _ => (st, "bad-line")
 
-def initSpec : OState := {}
+structure OState2 where
+  ref : OState := {}
+  safe : SState := {}
+
+/-- the reference oracle (inside the property's hypothesis) and the safety oracle (every history) side by side:
+    a violation of either is a violation; otherwise the reference's verdict -/
+def specStep (st : OState2) (line : String) : OState2 × String :=
+  let (ref', v) := specStep0 st.ref line
+  match line.splitOn " ||| " with
+  | [op, impl0] =>
+    let impl := impl0.trimAscii.toString
+    let tbl := st.safe.tbl
+    let (safe', sv) : SState × Option String :=
+      if impl.startsWith "parse-throw" || impl == "bad-op" || impl == "unmodelled-proto" then (st.safe, none) else
+      match words op with
+      | ["case"] => ({}, none)
+      | "dgram" :: ws => match parseDgram ws with
+        | some (tag, d) => ({ st.safe with tbl := (tag, d) :: tbl.filter (·.1 != tag) }, none)
+        | none => (st.safe, none)
+      | "frag" :: ws => match fragOp tbl ws with
+        | some (_, _, _, _, _, some pkt) => safetyPkt st.safe pkt impl
+        | _ => (st.safe, none)
+      | "whole" :: ws => match wholeOp tbl ws with
+        | some (some pkt) => safetyPkt st.safe pkt impl
+        | _ => (st.safe, none)
+      | ["nonip"] => safetyPkt st.safe nonipPkt impl
+      | ["clear"] => safetyTable st.safe [] (polClear st.safe.pol) impl
+      | ["remove", id, src, dst] => match id.toNat?, src.toNat?, dst.toNat? with
+        | some id, some src, some dst =>
+          safetyTable st.safe (st.safe.live.filter (fun k => !(k.id == id && k.src == src && k.dst == dst)))
+            (polRemove st.safe.pol id src dst) impl
+        | _, _, _ => (st.safe, none)
+      | _ => (st.safe, none)
+    let st' : OState2 := { ref := ref', safe := safe' }
+    if v.startsWith "violates" then (st', v) else
+    match sv with
+    | some c => (st', s!"violates {c}{if st.ref.reuse then " ctx=key-reuse" else ""}")
+    | none => (st', v)
+  | _ => ({ st with ref := ref' }, v)
+
+def initSpec : OState2 := {}
 
 end Driver.C08
